@@ -136,19 +136,28 @@ func (bw *BatchedWriter) Enqueue(object BatchWriteObject) {
 		}
 	})
 
+	// announce the object before checking whether the BatchWriter is still running: the writer only
+	// terminates once it has seen running == false and scheduledCount == 0 (in that order), so it can
+	// not miss an Enqueue that still saw running == true, and an Enqueue that is too late backs out
+	// without having touched the object.
+	bw.scheduledCount.Add(1)
+
 	// abort if the BatchWriter has been stopped
 	if !bw.running.Load() {
+		bw.scheduledCount.Add(-1)
+
 		return
 	}
 	verifYield("BatchedWriter.Enqueue:after-running-check")
 
 	// abort if the very same object has been queued already
 	if object.BatchWriteScheduled() {
+		bw.scheduledCount.Add(-1)
+
 		return
 	}
 
 	// queue object
-	bw.scheduledCount.Add(1)
 	bw.batchQueue <- object
 }
 
